@@ -21,8 +21,17 @@ import time
 
 VERIF = os.path.dirname(os.path.dirname(os.path.abspath(__file__)))
 REPO = os.environ.get("VERIF_REPO", "/repo")
-CACHE = os.path.join(VERIF, ".cache")
-COQ = os.path.join(VERIF, "coq")
+# VERIF_REPO=/tmp/some-worktree runs a check against a scratch copy of erg (mutation testing) without touching
+# /repo, /verif/coq/gen, /verif/evidence or /verif/replays: everything mutable then lives under /tmp/vcache-<hash>.
+ALT = os.path.realpath(REPO) != "/repo"
+if ALT:
+    CACHE = "/tmp/vcache-" + hashlib.sha1(os.path.realpath(REPO).encode()).hexdigest()[:8]
+    COQ = os.path.join(CACHE, "coq")
+    OUT = CACHE
+else:
+    CACHE = os.path.join(VERIF, ".cache")
+    COQ = os.path.join(VERIF, "coq")
+    OUT = VERIF
 GUARD = "erg_verif"
 PY_VERSIONS = {
     "3.7": "/root/.pyenv/versions/3.7.16/bin/python3.7",
@@ -46,6 +55,11 @@ AXIOM_ALLOW = {
 
 class FrameworkError(Exception):
     """The machinery itself is broken (cannot build, cannot run): exit 2."""
+
+
+class TieBroken(Exception):
+    """/repo compiles but the harness/translator no longer fits it: the model/code tie is broken.
+    Reported as a violation with no-failing-input-found (the property is no longer shown to hold)."""
 
 
 def sh(cmd, cwd=None, env=None, timeout=None, inp=None, check=False):
@@ -144,8 +158,11 @@ class Ctx:
         self.proof = None
         self._known = None
         os.makedirs(CACHE, exist_ok=True)
-        os.makedirs(os.path.join(VERIF, "evidence"), exist_ok=True)
-        os.makedirs(os.path.join(VERIF, "replays"), exist_ok=True)
+        os.makedirs(os.path.join(OUT, "evidence"), exist_ok=True)
+        os.makedirs(os.path.join(OUT, "replays"), exist_ok=True)
+        if ALT:
+            with Lock("coq"):
+                sh(["rsync", "-a", "--delete", os.path.join(VERIF, "coq") + "/", COQ + "/"], check=True)
 
     # ---- logging
     def log(self, *a):
@@ -163,17 +180,24 @@ class Ctx:
         return {"CARGO_NET_OFFLINE": "true", "RUSTFLAGS": "--cfg %s" % GUARD,
                 "CARGO_TARGET_DIR": os.path.join(CACHE, "target"), "CARGO_TERM_COLOR": "never"}
 
-    def harness(self, pkg="ergv", release=False, extra_rustflags=""):
-        """cargo build of /verif/harness/<pkg> against /repo's working tree; returns binary path"""
+    def harness(self, pkg, release=False, extra_rustflags=""):
+        """cargo build of the crate /verif/harness/<pkg> (binary ergv-<pkg>) against /repo's working tree;
+        all harness crates share one target dir, so the erg crates are compiled once; returns binary path"""
         d = os.path.join(VERIF, "harness", pkg)
+        if ALT:
+            hs = os.path.join(CACHE, "harness")
+            sh(["rsync", "-a", "--delete", "--exclude", "Cargo.lock", os.path.join(VERIF, "harness") + "/", hs + "/"], check=True)
+            d = os.path.join(hs, pkg)
+            ct = open(os.path.join(d, "Cargo.toml")).read().replace('"/repo/', '"%s/' % os.path.realpath(REPO))
+            open(os.path.join(d, "Cargo.toml"), "w").write(ct)
         lock = os.path.join(d, "Cargo.lock")
         # lock file always follows /repo's (it may change with the tree)
         src_lock = os.path.join(REPO, "Cargo.lock")
         env = self.cargo_env()
-        env["CARGO_TARGET_DIR"] = os.path.join(CACHE, "target-" + pkg)
+        env["CARGO_TARGET_DIR"] = os.path.join(CACHE, "target-h")
         if extra_rustflags:
             env["RUSTFLAGS"] += " " + extra_rustflags
-        with Lock("cargo-" + pkg):
+        with Lock("cargo-h"):
             if not os.path.exists(lock):
                 shutil.copy(src_lock, lock)
             cmd = ["cargo", "build", "--offline", "--quiet"] + (["--release"] if release else [])
@@ -184,9 +208,11 @@ class Ctx:
                 shutil.copy(src_lock, lock)
                 p = sh(cmd, cwd=d, env=env, timeout=3000)
             if p.returncode != 0:
-                raise FrameworkError("harness %s does not build against /repo:\n%s" % (pkg, p.stderr[-6000:]))
+                if re.search(r"could not compile `(erg_|els)", p.stderr):
+                    raise FrameworkError("/repo itself does not compile:\n%s" % p.stderr[-6000:])
+                raise TieBroken("harness %s no longer builds against /repo (API it drives changed):\n%s" % (pkg, p.stderr[-3000:]))
             self.log("harness %s built in %.1fs" % (pkg, time.time() - t))
-        return os.path.join(env["CARGO_TARGET_DIR"], "release" if release else "debug", pkg)
+        return os.path.join(env["CARGO_TARGET_DIR"], "release" if release else "debug", "ergv-" + pkg)
 
     def erg_bin(self, release=False, features=None):
         """the erg CLI built from /repo's working tree (hooks on)"""
@@ -252,7 +278,8 @@ class Ctx:
             else:
                 st.discharged = list(st.obligations)
             # forbidden constructs anywhere in the development (comments stripped)
-            bad = audit_sources()
+            bad = audit_sources(props_files)
+            self.cov["audited_files"] = coq_closure(props_files)
             if bad:
                 st.ok = False
                 st.broken.append(("forbidden-construct", "; ".join(bad[:5])))
@@ -359,6 +386,11 @@ class Ctx:
         if self._known is None:
             p = os.path.join(VERIF, "known_findings.json")
             self._known = json.load(open(p)) if os.path.exists(p) else []
+            kd = os.path.join(VERIF, "known")
+            if os.path.isdir(kd):
+                for f in sorted(os.listdir(kd)):
+                    if f.endswith(".json"):
+                        self._known += json.load(open(os.path.join(kd, f)))
         return [k for k in self._known if k.get("property") == self.pid and k.get("status") == "finding"]
 
     def known_finding(self, entry, what=None):
@@ -369,7 +401,7 @@ class Ctx:
     # ---- violations
     def violation(self, kind, what, case=None, impl=None, model=None, judge=None, theorem=None, no_input=False):
         n = len(self.violations)
-        path = os.path.join(VERIF, "replays", "%s-%d-%d.json" % (self.pid, self.seed, n))
+        path = os.path.join(OUT, "replays", "%s-%d-%d.json" % (self.pid, self.seed, n))
         obj = {"property": self.pid, "kind": kind, "what": what, "case": case, "impl_observation": impl,
                "model_observation": model, "judge_verdict": judge, "theorem": theorem, "seed": self.seed,
                "tier": self.tier}
@@ -388,7 +420,7 @@ class Ctx:
               "coverage": cov, "assumptions": self.assumptions, "wall_s": round(wall, 2),
               "violations": len(self.violations), "notes": self.notes,
               "known_findings_reported": self.known_lines}
-        with open(os.path.join(VERIF, "evidence", self.pid + ".json"), "w") as f:
+        with open(os.path.join(OUT, "evidence", self.pid + ".json"), "w") as f:
             json.dump(ev, f, indent=1, default=str)
         for l in self.known_lines:
             print(l)
@@ -430,9 +462,28 @@ def coq_sources():
     return sorted(out)
 
 
-def audit_sources():
+def coq_closure(rel_files):
+    """the given coq/-relative .v files plus everything they (transitively) Require from ErgV"""
+    seen = []
+    todo = list(rel_files)
+    while todo:
+        f = todo.pop()
+        if f in seen or not os.path.exists(os.path.join(COQ, f)):
+            continue
+        seen.append(f)
+        txt = strip_coq_comments(open(os.path.join(COQ, f)).read())
+        for m in re.finditer(r"From\s+ErgV\s+Require\s+(?:Import\s+|Export\s+)?(.*?)\.(?:\s|$)", txt, re.S):
+            for name in m.group(1).split():
+                todo.append(name.replace(".", "/") + ".v")
+        for m in re.finditer(r"ErgV\.([A-Za-z_][\w.]*)", txt):
+            todo.append(m.group(1).replace(".", "/") + ".v")
+    return sorted(seen)
+
+
+def audit_sources(rel_files=None):
     bad = []
-    for f in coq_sources():
+    files = coq_sources() if rel_files is None else [os.path.join(COQ, f) for f in coq_closure(rel_files)]
+    for f in files:
         txt = strip_coq_comments(open(f).read())
         # strings may mention words: drop string literals
         txt = re.sub(r'"[^"]*"', '""', txt)
@@ -519,8 +570,9 @@ def main(argv):
     import argparse
     import importlib
     ap = argparse.ArgumentParser()
-    ap.add_argument("cmd", choices=["check", "replay", "setup"])
+    ap.add_argument("cmd", choices=["check", "replay", "setup", "coqmake"])
     ap.add_argument("pid", nargs="?")
+    ap.add_argument("rest", nargs="*")
     ap.add_argument("--tier", default=os.environ.get("VERIF_TIER", "quick"))
     ap.add_argument("--replay", default=None)
     a = ap.parse_args(argv)
@@ -528,6 +580,12 @@ def main(argv):
     if a.cmd == "setup":
         from lib import setup
         return setup.main()
+    if a.cmd == "coqmake":
+        # python3 vp.py coqmake Graph/Proofs.vo [more targets]: make under the shared coq lock
+        with Lock("coq"):
+            ensure_coq_makefile()
+            p = subprocess.run(["timeout", "3000", "make", "-j16"] + [a.pid] + a.rest, cwd=COQ)
+        return p.returncode
     seed = int(os.environ.get("VERIF_SEED", "20260921"))
     tier = a.tier if a.tier in ("quick", "thorough") else "quick"
     ctx = Ctx(a.pid, tier, seed)
@@ -537,6 +595,8 @@ def main(argv):
             mod.replay(ctx, a.replay)
         else:
             mod.run(ctx)
+    except TieBroken as e:
+        ctx.violation("broken-correspondence", str(e), no_input=True)
     except FrameworkError as e:
         print("FRAMEWORK-ERROR property=%s: %s" % (a.pid, e))
         ctx.notes.append("framework error: %s" % e)
@@ -573,20 +633,20 @@ def shrink_list(items, fails, budget=300):
 class Harness:
     """line-oriented client for `ergv <theme>` (one s-expression in, one out)"""
 
-    def __init__(self, ctx, theme, pkg="ergv", release=False, env=None):
+    def __init__(self, ctx, pkg, release=False, env=None, args=()):
         self.bin = ctx.harness(pkg, release=release)
-        self.theme = theme
+        self.args = list(args)
         self.env = env or {}
 
     def run(self, cases, timeout=1200):
         inp = "\n".join(sx_dump(c) for c in cases) + "\n"
-        p = sh([self.bin, self.theme], inp=inp, timeout=timeout, env=self.env)
+        p = sh([self.bin] + self.args, inp=inp, timeout=timeout, env=self.env)
         lines = [l for l in p.stdout.splitlines() if l.strip()]
         if p.returncode != 0 or len(lines) != len(cases):
             # a hard crash (abort/stack overflow) kills the process: find the culprit by bisection
             out = []
             for c in cases:
-                q = sh([self.bin, self.theme], inp=sx_dump(c) + "\n", timeout=timeout, env=self.env)
+                q = sh([self.bin] + self.args, inp=sx_dump(c) + "\n", timeout=timeout, env=self.env)
                 l = [x for x in q.stdout.splitlines() if x.strip()]
                 out.append(sx_load(l[0]) if (q.returncode == 0 and l) else [-997, q.returncode])
             return out
